@@ -351,7 +351,35 @@ func c03Reject(t *fw.T) {
 			break
 		}
 	}
+	if r.Intn(5) == 0 {
+		// the program cut off at a token boundary where a bracket or a template substitution is still open: the
+		// missing closing bracket is never supplied by the end of the input
+		var cuts []int
+		depth := 0
+		for i, tk := range toks {
+			if i > 0 && depth > 0 {
+				cuts = append(cuts, i)
+			}
+			switch {
+			case len(tk) == 1 && strings.ContainsAny(tk, "([{"):
+				depth++
+			case len(tk) == 1 && strings.ContainsAny(tk, ")]}"):
+				depth--
+			case strings.HasSuffix(tk, "${") && tk[0] == '`':
+				depth++
+			case tk[0] == '}' && len(tk) > 1 && strings.HasSuffix(tk, "`"):
+				depth--
+			}
+		}
+		if len(cuts) > 0 {
+			at := cuts[r.Intn(len(cuts))]
+			kind = "truncate after " + toks[at-1]
+			mutant = strings.Join(toks[:at], " ")
+			c = -1
+		}
+	}
 	switch c {
+	case -1:
 	case 0: // delete or insert one bracket at a token boundary
 		// positions inside a template substitution are left alone: there a '}' is not a bracket but the end of the
 		// substitution, and what follows it is template text
